@@ -239,6 +239,36 @@ var scenarios = []scenario{
 		}
 		// the same for a directory-sized object is covered by the enumeration scenarios
 	}},
+	{"directory growing across block boundaries, last slots removed", func(s *seqRun) {
+		// 32 slots per block: the 31st, 63rd and 95th name open a new block; removing the name in
+		// the last slot (and the one before), re-adding, removing everything, removing the directory
+		d := s.mk("mkdir", s.root(), "wide")
+		var names []string
+		for i := 0; i < 97; i++ {
+			n := fmt.Sprintf("w%03d", i)
+			names = append(names, n)
+			s.opCreate("create", d, n, 0, nil)
+			if i == 30 || i == 31 || i == 62 || i == 94 {
+				s.opGetattr(d)
+				s.opRemove("remove", d, n) // the name in the last slot
+				s.opGetattr(d)
+				s.opReaddir(d, 0, 0xffffffff)
+				s.opCreate("create", d, n, 0, nil)
+				s.opGetattr(d)
+			}
+		}
+		s.opRestart()
+		for i := len(names) - 1; i >= 0; i-- {
+			s.opRemove("remove", d, names[i])
+			if i == 94 || i == 62 || i == 31 || i == 30 || i == 0 {
+				s.opGetattr(d)
+				s.opReaddir(d, 0, 0xffffffff)
+			}
+		}
+		s.opRemove("rmdir", s.root(), "wide")
+		s.mk("mkdir", s.root(), "wide2") // the number (and whatever it still pointed to) is reused
+		s.opCreate("create", s.handleOf(s.root(), "wide2"), "x", 0, nil)
+	}},
 	{"write straddling the end of file while a truncation is still pending", func(s *seqRun) {
 		// a truncation too large for one transaction leaves the inode shrinking (finished in the
 		// background, or — just below the journal's capacity — by whoever touches the file next);
